@@ -522,6 +522,51 @@ FLEET['G18'] = dict(
     values=['node', 'mnode'],
 )
 
+# two items of one state share a closure item (A -> . a, y is reached from S -> . A y and from T -> . A y): whatever the
+# library remembers about the closure of ONE item must be complete on its own, because the item reappears in another
+# state (after 'q') without its sibling. Language: a y | a y w | q a y w
+FLEET['G19'] = dict(
+    terms=[
+        ('a', T('char', 'a', typed=True)),
+        ('y', T('char', 'y')),
+        ('w', T('char', 'w')),
+        ('q', T('char', 'q')),
+    ],
+    nterms=['S', 'T', 'A'],
+    root='S',
+    rules=[
+        ('S', ['A', 'y'], 'plain'),
+        ('S', ['T', 'w'], 'plain'),
+        ('S', ['q', 'T', 'w'], 'ctx'),
+        ('T', ['A', 'y'], 'plain'),
+        ('A', ['a'], 'plain'),
+    ],
+    values=['node', 'mnode'],
+)
+
+
+# every right side has the maximal length, so "the rest of rule r after its last symbol" and "all of rule r+1" are
+# neighbours in any per-(rule, position) table. Language: a b | d d c b
+FLEET['G20'] = dict(
+    terms=[
+        ('a', T('char', 'a')),
+        ('b', T('char', 'b', typed=True)),
+        ('c', T('char', 'c')),
+        ('d', T('char', 'd')),
+    ],
+    nterms=['S', 'B', 'D', 'E', 'C'],
+    root='S',
+    rules=[
+        ('S', ['a', 'B'], 'plain'),
+        ('B', ['b'], 'plain'),
+        ('S', ['d', 'D'], 'plain'),
+        ('D', ['d', 'E'], 'ctx'),
+        ('E', ['C', 'B'], 'plain'),
+        ('C', ['c'], 'plain'),
+    ],
+    values=['node', 'mnode'],
+)
+
 # standalone regex matchers (regex::expr<P>)
 REGEXES = {
     'R1': 'ab*c',
